@@ -505,7 +505,7 @@ impl LogicalOp {
 //@ - old(eval_state).index <= old(eval_state).tokens@.len()
 //@ - 0 < old(eval_state).depth <= MAX_EVAL_DEPTH
 //@ ensures
-//@ - level_post(*old(eval_state), *final(eval_state), r, s_primary_inner(old(eval_state).tokens@, old(eval_state).index as int, env_of(*old(eval_state))))     @@C14.primary.sem @@C14.unary @@C14.paren
+//@ - level_post(*old(eval_state), *final(eval_state), r, s_primary_inner(old(eval_state).tokens@, old(eval_state).index as int, env_of(*old(eval_state))))     @@C14.primary.sem @@C14.unary @@C14.paren @@C01.expr.nesting_counted
 //@ - r is Ok ==> final(eval_state).index > old(eval_state).index     @@C01.expr.primary_progress
 //@ - final(eval_state).depth == old(eval_state).depth     @@C01.expr.depth_restored
 //@ decreases
@@ -522,7 +522,7 @@ impl LogicalOp {
 //@ - old(eval_state).index <= old(eval_state).tokens@.len()
 //@ - old(eval_state).depth <= MAX_EVAL_DEPTH
 //@ ensures
-//@ - level_post(*old(eval_state), *final(eval_state), r, s_primary(old(eval_state).tokens@, old(eval_state).index as int, env_of(*old(eval_state))))     @@C14.primary.sem @@C14.unary @@C14.paren
+//@ - level_post(*old(eval_state), *final(eval_state), r, s_primary(old(eval_state).tokens@, old(eval_state).index as int, env_of(*old(eval_state))))     @@C14.primary.sem @@C14.unary @@C14.paren @@C01.expr.nesting_counted
 //@ - r is Ok ==> final(eval_state).index > old(eval_state).index     @@C01.expr.primary_progress
 //@ - final(eval_state).depth == old(eval_state).depth     @@C01.expr.depth_restored
 //@ - old(eval_state).depth >= MAX_EVAL_DEPTH ==> r is Err     @@C01.expr.nesting_bounded
